@@ -91,6 +91,8 @@ def services():
             ir.arg("self", P("INTEGER"), "header", "X-Self"), ir.arg("snake_arg", ir.list_(P("INTEGER")), "query", "snake_arg"),
             ir.arg("match", ir.optional(P("BOOLEAN")), "header", "X-Match")], returns=P("STRING")),
         # every query argument optional / a collection: the first written pair may be any of them
+        # a typed single-valued path parameter behind a regex segment: a raw request can hand it several segments
+        ir.endpoint("regexPath", "GET", "/m/re/{n:.+}", [ir.arg("n", P("INTEGER"), "path")], returns=P("STRING")),
         ir.endpoint("optQuery", "GET", "/m/optquery", [
             ir.arg("first", ir.optional(P("STRING")), "query", "first"), ir.arg("lst", ir.list_(P("INTEGER")), "query", "lst"),
             ir.arg("st", ir.set_(P("STRING")), "query", "st"), ir.arg("last", ir.optional(P("INTEGER")), "query", "last")],
